@@ -11,7 +11,27 @@ def declare(reg):
         "msg_set": "list[MsgElt]", "keyword": "str", "n": "int", "string": "str", "header": "str",
     })
     reg.classdef("IMAPUserServer", {"uid_vv": "int", "maildir": "str", "mailbox": "ref:MH"}, path="asimap/user_server.py")
-    reg.classdef("ClientProxy", {"name": "str"})
+    # g_out: ghost list of everything pushed to this client, in order
+    reg.classdef("ClientProxy", {"name": "str", "g_out": "list[str]"})
+    reg.classdef(
+        "POP3CommandHandler",
+        {
+            "client": "ref:ClientProxy",
+            "mbox": "opt[ref:Mailbox]",
+            "snapshot_msg_keys": "list[int]",
+            "snapshot_uids": "list[int]",
+            "msg_count": "int",
+            "msg_sizes": "dict[int,int]",
+            "deleted": "set[int]",
+        },
+        invariant={
+            "snapshot-len": "len(self.snapshot_msg_keys) == self.msg_count and len(self.snapshot_uids) == self.msg_count",
+            "snapshot-asc": "asc(self.snapshot_uids) and asc(self.snapshot_msg_keys)",
+            "deleted-valid": "forall(lambda n: implies(n in self.deleted, 1 <= n and n <= self.msg_count))",
+            "has-mbox": "not is_none(self.mbox)",
+        },
+        path="asimap/pop3_client.py",
+    )
     # ghost view of the MH folder on disk: the set of message files (A-MH)
     reg.classdef("MH", {"g_keys": "set[int]", "g_seqs": "defaultdict[str,set[int]]", "g_mtime": "int"})
     reg.classdef(
